@@ -40,6 +40,10 @@ LINES = (
     ' * Value: 42', ' * Virtual: frob', ' * Description: old tag', ' * plain description text', ' * (skip) text starting with parens',
     ' * text: with colon', ' *   indented text', '*nospace', ' text without asterisk', ' * caf\u00e9 \u2603 non-ASCII',
     '\t*\ttabs\teverywhere', ' * (', ' * )', ' * @p: (', ' * ):', ' * @p: ) (', ' * trailing */ inside', ' * /** nested start',
+    # characters str.splitlines() treats as line ends but the C lexer does not
+    ' * form\x0cfeed and vertical\x0btab in text', ' * @q: (out): next\x85line \u2028 \u2029 separators', ' * \x1c\x1d\x1e:',
+    # an annotation continued on the next line, partly well formed
+    ' * @data: (in)', ' *   (out) (transfer', ' *   (nullable) extra (', ' *   (skip) (rename-to',
 )
 N_FIRST = len(FIRST)
 N_LINES = len(LINES)
@@ -132,7 +136,33 @@ def _run_blocks(bad):
     d = _check_diagnostics(log, src)
     if d:
         return d + ' | block %r' % (bad,)
+    d = _check_not_half_applied(blocks, log, bad)
+    if d:
+        return d + ' | block %r' % (bad,)
     return True
+
+
+def _check_not_half_applied(blocks, log, bad):
+    """A line whose annotations were reported as ignored contributes no annotation."""
+    lines = _source_lines(bad)
+    flagged = set()
+    for rec in log.full:
+        if 'ignored' in rec['text'] and isinstance(rec['positions'], message.Position) \
+                and rec['positions'].filename == 'bad.c':
+            flagged.add(rec['positions'].line - 100)
+    if not flagged:
+        return None
+    kept = [ln for i, ln in enumerate(lines) if i not in flagged]
+    for b in blocks.values():
+        if b.position.filename != 'bad.c':
+            continue
+        parts = [('identifier', b.annotations)] + [('@' + p.name, p.annotations) for p in b.params.values()] + \
+                [(t.name, t.annotations) for t in b.tags.values()]
+        for what, anns in parts:
+            for name in anns:
+                if not any(('(' + name) in ln or (name.replace('-', ' ') + ':') in ln.lower() for ln in kept):
+                    return 'annotation (%s) of %s comes only from a line whose annotations were reported as ignored' % (name, what)
+    return None
 
 
 def counting(f: int, l1: int, l2: int, enable_warnings: bool):
